@@ -57,7 +57,37 @@ def civil_common(ctx):
         run_tlc(ctx, "MC_CivilPeriod", env={"STRIDE": 11}, timeout=600)
     table = ctx.path("cycle.ndjson")
     run_tlc(ctx, "Gen_Cycle", env={"OUT": table})
+    if ctx.thorough and ctx.pid == "C01":
+        apalache_roundtrip(ctx)
     return table
+
+
+def apalache_roundtrip(ctx):
+    """Full-range lemma (all 2^32 day numbers at once, SMT): Civil_lemmas_apa!RoundTrip, with the TLC bridge tying
+    Civil_lemmas to Civil. Best effort: a time-out is recorded as 'not discharged', never as a failure."""
+    import subprocess
+    run_tlc(ctx, "MC_CivilLemmaBridge", timeout=600)
+    out = ctx.path("apalache")
+    cmd = ["apalache-mc", "check", "--init=Init", "--next=Next", "--inv=RoundTrip", "--length=0", "--out-dir=" + out,
+           os.path.join(SPEC, "Civil_lemmas_apa.tla")]
+    t = time.time()
+    try:
+        p = subprocess.run(cmd, cwd=ctx.work, stdout=subprocess.PIPE, stderr=subprocess.STDOUT, text=True, timeout=1200)
+        txt = p.stdout
+    except subprocess.TimeoutExpired:
+        txt = "TIMEOUT"
+    if "The outcome is: NoError" in txt:
+        verdict = "discharged"
+    elif "TIMEOUT" in txt:
+        verdict = "not discharged (time-out)"
+    elif "The outcome is: Error" in txt:
+        raise ToolError("Apalache found a counterexample to the calendar round-trip lemma: the specification is wrong")
+    else:
+        verdict = "not discharged (tool problem)"
+    log("[apalache] RoundTrip lemma over all 2^32 day numbers: %s (%.0fs)" % (verdict, time.time() - t))
+    ctx.extra["apalache_roundtrip_lemma"] = {"statement": "for every dn in [-2^31, 2^31): Dn2Ymd(dn) is a valid in-range date with no year 0 "
+                                                           "and Ymd2Dn(Dn2Ymd(dn)) = dn", "verdict": verdict,
+                                             "bridge": "MC_CivilLemmaBridge (TLC): Civil_lemmas = Civil on 35 104 days"}
 
 
 def civil_samples(ctx, table, prefixes):
